@@ -55,3 +55,78 @@ class Expunge(Harness):
         if not nu_same or not idx_ok or num != len(want):
             return {"observed": [nu_same, idx_ok, num], "clause": "next_uid unchanged, index dicts rebuilt, num_msgs == len"}
         return None
+
+
+def deliver(maildir, folder, n, unseen=True, extra_seq=None, start=100):
+    """What an external MH agent does: add files with the next free numbers, optionally list them in sequences."""
+    mh = mailbox.MH(str(maildir / folder))
+    from .realsrv import make_message
+
+    keys = []
+    for i in range(n):
+        keys.append(int(mh.add(make_message(start + i))))
+    seqs = mh.get_sequences()
+    if unseen:
+        seqs.setdefault("unseen", [])
+        seqs["unseen"] = sorted(set(seqs["unseen"]) | set(keys))
+    if extra_seq:
+        seqs.setdefault(extra_seq, [])
+        seqs[extra_seq] = sorted(set(seqs[extra_seq]) | set(keys))
+    mh.set_sequences(seqs)
+    return keys
+
+
+class Resync(Harness):
+    """check_new_msgs_and_flags after external deliveries (C02 allocation, C13 delivery)."""
+
+    scope = "real folder of N in {0,3} messages, optionally after expunging the last / a middle message; 0..2 deliveries, seen or unseen, optionally in a custom sequence"
+    exhaustive = True
+
+    def inputs(self, tier, seed):
+        for n in (0, 3):
+            for pre in ((None,) if n == 0 else (None, "last", "middle")):
+                for k in (0, 1, 2):
+                    for unseen in (True, False):
+                        for extra in (None, "flagged"):
+                            yield {"n": n, "pre_expunge": pre, "deliver": k, "unseen": unseen, "extra": extra}
+
+    def check(self, inp):
+        async def go():
+            async with World({"inbox": inp["n"]}) as w:
+                a = w.session("a")
+                await a.cmd("SELECT inbox")
+                if inp["pre_expunge"]:
+                    tgt = 3 if inp["pre_expunge"] == "last" else 2
+                    await a.cmd(f"STORE {tgt} +FLAGS (\\Deleted \\Flagged)")
+                    await a.cmd("EXPUNGE")
+                mbox = a.h.mbox
+                before = dict(uids=list(mbox.uids), keys=list(mbox.msg_keys), next_uid=mbox.next_uid, vv=mbox.uid_vv,
+                              flags={k: sorted(mbox.msg_sequences(k)) for k in mbox.msg_keys})
+                new = deliver(w.maildir, "inbox", inp["deliver"], inp["unseen"], inp["extra"])
+                async with mbox.mailbox.lock_folder():
+                    changed = await mbox.check_new_msgs_and_flags(optional=False)
+                after = dict(uids=list(mbox.uids), keys=list(mbox.msg_keys), next_uid=mbox.next_uid, vv=mbox.uid_vv,
+                             flags={k: sorted(mbox.msg_sequences(k)) for k in mbox.msg_keys})
+                disk = {s: sorted(v) for s, v in mailbox.MH(str(w.maildir / "inbox")).get_sequences().items()}
+                mem = {s: sorted(v) for s, v in mbox.sequences.items() if v}
+                return before, new, changed, after, disk, mem
+
+        before, new, changed, after, disk, mem = run(go())
+        k = len(new)
+        want_uids = before["uids"] + list(range(before["next_uid"], before["next_uid"] + k))
+        if after["uids"] != want_uids or after["keys"] != before["keys"] + new:
+            return {"observed": after, "clause": f"uids == {want_uids}, keys == old + {new}"}
+        if after["next_uid"] != before["next_uid"] + k or after["vv"] != before["vv"]:
+            return {"observed": after, "clause": "next_uid advances by the number of new messages; uid_vv unchanged"}
+        for key in before["keys"]:
+            if after["flags"][key] != before["flags"][key]:
+                return {"observed": after["flags"], "clause": "flags of existing messages unchanged"}
+        for key in new:
+            want = {"Recent", "unseen" if inp["unseen"] else "Seen"} | ({inp["extra"]} if inp["extra"] else set())
+            if set(after["flags"][key]) != want:
+                return {"observed": after["flags"][key], "clause": f"new message flags == {sorted(want)}"}
+        if k and disk != mem:
+            return {"observed": {"disk": disk, "memory": mem}, "clause": ".mh_sequences equals the in-memory sequences after a resync that found new messages"}
+        if bool(changed) != (k > 0):
+            return {"observed": changed, "clause": "returns True iff new messages were found"}
+        return None
